@@ -246,8 +246,10 @@ Qed.
    (harness/genmods/py2v_versioned.py): _convert, convert_dict, deep_get with its helper, Constant.  For EVERY
    document, mapping history and user-function oracle, what the source computes NOW is what the hand-written
    model Ser/Versioned.v (on which the theorems above are proved) computes.  [predicted] excludes only the
-   inputs on which the hand model declines (Raise Unmodelled); [mapping_ok]/[plain_version] delimit the
-   encodable mappings and the non-float version numbers. *)
+   inputs on which the hand model declines (Raise Unmodelled); [mapping_ok] delimits the
+   encodable mappings, [plain_version] a start version that is not a float / Decimal / opaque object, [versions_plain_dict]
+   a run that never adds 1 to an opaque object (floats are added exactly on both sides).  The model is taken at the
+   literals of convert_dict re-read from the source (gen_cd_params). *)
 From TP Require Import Base.PyOps Base.PyOps2 Base.PyOpsVersioned Gen.VersionedSrc Ser.VersionedSrcProofs.
 
 Theorem C17_src_get_next_level :
@@ -274,18 +276,18 @@ Theorem C17_src_convert_dict_gen :
   forall (fn : N -> list pyval -> res pyval) (d : dict) (maps : list mapping),
          forallb mapping_ok maps = true ->
          versions_plain_dict fn d maps = true ->
-         predicted (convert_dict fn d maps) = true ->
-         Src_convert_dict (call_of fn) (PDict d) (enc_maps maps) = enc_res (convert_dict fn d maps).
+         predicted (convert_dict fn gen_cd_params d maps) = true ->
+         Src_convert_dict (call_of fn) (PDict d) (enc_maps maps) = enc_res (convert_dict fn gen_cd_params d maps).
 Proof. exact src_convert_dict_gen. Qed.
 
-(* the same under C17's own hypotheses (every mapping keeps the version key, the start version is a plain int) *)
+(* the same under C17's own hypotheses (every mapping keeps the version key, the start version is plain) *)
 Theorem C17_src_convert_dict :
   forall (fn : N -> list pyval -> res pyval) (d : dict) (maps : list mapping),
          forallb mapping_ok maps = true ->
          forallb keeps_version maps = true ->
          plain_version d = true ->
-         predicted (convert_dict fn d maps) = true ->
-         Src_convert_dict (call_of fn) (PDict d) (enc_maps maps) = enc_res (convert_dict fn d maps).
+         predicted (convert_dict fn gen_cd_params d maps) = true ->
+         Src_convert_dict (call_of fn) (PDict d) (enc_maps maps) = enc_res (convert_dict fn gen_cd_params d maps).
 Proof. exact src_convert_dict. Qed.
 
 Print Assumptions C17_src_get_next_level.
